@@ -1,7 +1,10 @@
 """C14 - multi-file mode partitions types by crate and imports cross-crate references.
-Proof: Props/C14.v (24 theorems: partition = find_crate_name of the path, every file holds exactly the declarations of
-its crate's sources, union over the files = the single-file run; imports sound unconditionally, complete on
-dom_C14, good_C14 holds of the model for every workspace and every iteration order; one witness per finding class).
+Proof: Props/C14.v (29 theorems: partition = find_crate_name of the path, every file holds exactly the declarations of
+its crate's sources, union over the files = the single-file run; imports sound unconditionally - an import names a
+TYPE of its module, never a const -, complete on dom_C14 = named references and references covered by a glob import,
+good_C14 holds of the model for every workspace and every iteration order, the import list used_imports builds does not
+depend on the iteration order of the import set (as a set of pairs and as a value); one witness per open finding class, one regression pin per class repaired in
+/repo: C14-glob, C14-glob-order, C14-glob-const).
 Correspondence, through the REAL BINARY with `-d`: generated workspaces of 1-5 crates (directory names with
 dashes / underscores / digits, files at depth 0-3 under <crate>/src, files outside any src, nested
 src/../src), cross-crate references introduced by every `use` form of the property and by qualified
@@ -11,7 +14,9 @@ Observed per language (all six): the set of files written and their names; the d
 Kotlin the import statements.  Compared with (a) the extracted model byte for byte (whole files, all six
 languages), (b) the extracted Spec.C14Spec predicates evaluated on the OBSERVED import pairs (sound;
 complete on dom_C14; finding classes).  Where the model takes a hash-iteration order as an argument the
-model is evaluated under several orders and the binary is run repeatedly."""
+model is evaluated under several orders and the binary is run repeatedly: only the same-name fallback (C14-same-name)
+may vary; a glob import next to an explicit import of the same crate must give ONE output under every order and in
+every run (it did not before the /repo fix of mod.rs:472)."""
 import concurrent.futures, json, os, pathlib, re, shutil, subprocess
 import vf, progs, back
 from vf import S, Lst, sx_opt
@@ -60,7 +65,8 @@ def imports_of(lang, text):
     if lang == 'typescript':
         for m in re.finditer(r'^import \{ (.*?) \} from "\./(.*?)";$', text, re.M):
             for n in m.group(1).split(', '):
-                pairs.append((m.group(2), n))
+                if n.strip():              # `import {  } from "./k";`: a glob import of a crate without types
+                    pairs.append((m.group(2), n))
     elif lang == 'kotlin':
         for m in re.finditer(r'^import p\.([^.\n]+)\.(\S+)$', text, re.M):
             pairs.append((m.group(1), m.group(2)))
@@ -73,7 +79,8 @@ class Ws:
         self.files = {}            # relative path (tuple of components) -> source text
         self.mappings = {}         # type_mappings for the import languages
         self.tags = set()          # features the generator planted (for counters / non-triviality)
-        self.maybe_order_dependent = False
+        self.maybe_order_dependent = False      # the same-name fallback is planted: the one construct whose result may vary
+        self.glob_mix = False                   # a glob next to an explicit import of the same crate: run repeatedly, must NOT vary
         self.expect_crash = False
         self.desc = ''
 
@@ -125,6 +132,19 @@ def gen_workspace(rng, allow_const):
     ws.tags.add(f'crates{ncr}')
     ws.tags.add('depth' + str(max(len(f['sub']) for c in crates for f in c['files'])))
     allfiles = [f for c in crates for f in c['files']]
+    # a generic envelope type per crate (`pub struct Env2<T> { pub inner: T }`): the outer type of NESTED qualified references
+    # `e::..::Env2<d::..::Name>` - the inner path occurs only inside the generic arguments of another qualified path
+    envelopes = []                 # (file, item)
+    for k, c in enumerate(crates):
+        if c['files'] and rng.random() < 0.8:
+            f = rng.choice(c['files'])
+            it = progs.Item()
+            it.ident, it.kind, it.generics = f'Env{k}', 'struct', ['T']
+            fld = progs.Field()
+            fld.ident, fld.ty = 'inner', ('param', 'T')
+            it.fields = [fld]
+            f['prog'].items.append(it)
+            envelopes.append((f, it))
 
     def targets_of(f, same_crate):
         out = []
@@ -149,9 +169,7 @@ def gen_workspace(rng, allow_const):
             c['files'][0]['prog'].items.append(it)
         same = (a, e, b, rng.random() < 0.6)      # last: the use names one of the two crates (else an unknown crate)
         ws.tags.add('same-name')
-        if not same[3]:
-            b['od'] = 'FALLBACK'               # the one order-dependent construct this importing crate gets
-        else:
+        if same[3]:
             b.setdefault('explicit', set()).add(a['name'])
     link = 0
     for f in allfiles:
@@ -182,18 +200,11 @@ def gen_workspace(rng, allow_const):
                     t = ('raw', p + '::' + progs.show_type(('user', name, args)))
             else:
                 mode = rng.choice(['single', 'single', 'tree', 'tree', 'glob', 'qualified', 'qualified'])
-                # at most ONE order-dependent construct per importing crate (a glob next to an explicit import of
-                # the same crate, or the same-name fallback): the evaluated orders then cover every outcome
+                # a glob next to an explicit import of the same crate (in one file or in two files of the importing
+                # crate) was order-dependent before the /repo fix of mod.rs:472; now any mix is deterministic and
+                # nothing restricts the modes.  The only order-dependent construct left is the same-name fallback.
                 cr = f['crate']
                 gl, exl = cr.setdefault('globbed', set()), cr.setdefault('explicit', set())
-                if mode == 'glob' and cr.get('od') == 'FALLBACK':
-                    mode = 'single'
-                if mode == 'glob' and d in exl and cr.get('od', d) != d:
-                    mode = 'single'
-                elif mode != 'glob' and d in gl and cr.get('od', d) != d:
-                    mode = 'glob'
-                if (mode == 'glob' and d in exl) or (mode != 'glob' and d in gl):
-                    cr['od'] = d
                 (gl if mode == 'glob' else exl).add(d)
                 ws.tags.add(mode)
                 if it.rename:
@@ -207,11 +218,41 @@ def gen_workspace(rng, allow_const):
                     explicit.add(d)
                     t = ('user', name, args)
                 elif mode == 'glob':
-                    f['uses'].append('use ' + '::'.join([d] + (mods if rng.random() < 0.5 else []) + ['*']) + ';')
+                    gform = rng.random()
+                    if gform < 0.8:
+                        f['uses'].append('use ' + '::'.join([d] + (mods if rng.random() < 0.5 else []) + ['*']) + ';')
+                    else:                  # the glob inside a group
+                        f['uses'].append('use ' + d + '::{' + '::'.join((mods if rng.random() < 0.5 else ['m']) + ['*']) + ', zz::Nope' + str(len(f['uses'])) + '};')
+                        ws.tags.add('glob-in-group')
                     globbed.add(d)
                     t = ('user', name, args)
                 else:
-                    t = ('raw', '::'.join([d] + (mods if rng.random() < 0.7 else [])) + '::' + progs.show_type(('user', name, args)))
+                    inner = '::'.join([d] + (mods if rng.random() < 0.7 else [])) + '::' + progs.show_type(('user', name, args))
+                    if envelopes and rng.random() < 0.55:
+                        # the qualified path sits ONLY inside the generic arguments of another qualified path: an envelope of a third
+                        # crate, of the target's crate, or of the file's own crate (crate:: / self:: / super::), possibly under Vec / Option / HashMap
+                        ef, eit = rng.choice(envelopes)
+                        emods = modpath(ef['sub'], ef['stem'])
+                        if ef['crate'] is f['crate']:
+                            head = 'self' if ef is f else rng.choice(['crate', 'crate', 'super'])
+                            outer = '::'.join([head] + (emods if head == 'crate' else [])) + '::' + eit.ident
+                            ws.tags.add('nested-qualified-local-envelope')
+                        else:
+                            outer = '::'.join([ef['crate']['name']] + (emods if rng.random() < 0.6 else [])) + '::' + eit.ident
+                            cr['explicit'].add(ef['crate']['name'])
+                            ws.tags.add('nested-qualified-third-crate' if ef['crate']['name'] != d else 'nested-qualified-same-crate')
+                        wi = rng.random()
+                        inner = f'Vec<{inner}>' if wi < 0.2 else f'Option<{inner}>' if wi < 0.35 else f'HashMap<String, {inner}>' if wi < 0.45 else inner
+                        if rng.random() < 0.2 and len(envelopes) > 1:      # two levels: e1::Env<e2::Env<d::Name>>
+                            ef2, eit2 = rng.choice(envelopes)
+                            if ef2['crate'] is not f['crate']:
+                                inner = ef2['crate']['name'] + '::' + eit2.ident + '<' + inner + '>'
+                                cr['explicit'].add(ef2['crate']['name'])
+                                ws.tags.add('nested-qualified-two-levels')
+                        t = ('raw', f'{outer}<{inner}>')
+                        ws.tags.add('nested-qualified')
+                    else:
+                        t = ('raw', inner)
                     explicit.add(d)
             w = rng.random()
             t = ('vec', t, '') if w < 0.25 else ('option', t) if w < 0.45 else ('hashmap', progs.t_prim('String'), t, '') if w < 0.55 else t
@@ -289,8 +330,8 @@ def gen_workspace(rng, allow_const):
                     f['prog'].items.append(it2)
             f['prog'].items.append(it)
     for c in crates:
-        if c.get('globbed', set()) & c.get('explicit', set()) or 'od' in c:
-            ws.maybe_order_dependent = True
+        if c.get('globbed', set()) & c.get('explicit', set()):
+            ws.glob_mix = True
             ws.tags.add('glob+explicit')
     # a type mapping on a type that is referenced across crates (TypeScript / Kotlin suppress the import)
     if rng.random() < 0.25:
@@ -322,17 +363,28 @@ def corpus():
     A = '#[typeshare]\npub struct A1 { pub x: u8 }\n#[typeshare]\n#[serde(rename = "A2Renamed")]\npub struct A2 { pub x: u8 }\n#[typeshare]\npub struct A3 { pub y: String }\n'
     out = []
 
-    def mk(name, files, order=False, crash=False, mappings=None, reps=1):
+    def mk(name, files, order=False, crash=False, mappings=None, reps=1, mix=False):
         w = Ws()
         w.files = {tuple(k.split('/')): v for k, v in files.items()}
-        w.maybe_order_dependent, w.expect_crash, w.desc, w.reps = order, crash, name, reps
+        w.maybe_order_dependent, w.expect_crash, w.desc, w.reps, w.glob_mix = order, crash, name, reps, mix
         w.mappings = mappings or {}
         w.tags.add('corpus:' + name)
         out.append(w)
     mk('two-crates', {'a/src/lib.rs': A, 'b/src/m/x.rs': 'use a::A1;\nuse a::{A3};\n#[typeshare]\npub struct B1 { pub f: A1, pub g: Vec<A3>, pub h: a::inner::A1 }\n'})
     mk('renamed-import', {'a/src/lib.rs': A, 'b/src/lib.rs': 'use a::A2;\n#[typeshare]\npub struct B1 { pub f: A2 }\n'})
-    mk('glob', {'a/src/lib.rs': A, 'my-crate/src/lib.rs': 'use a::*;\n#[typeshare]\npub struct C1 { pub f: A1 }\n'})
-    mk('glob+explicit', {'a/src/lib.rs': A, 'b/src/lib.rs': 'use a::*;\nuse a::A1;\n#[typeshare]\npub struct B1 { pub f: A1, pub g: A3 }\n'}, order=True, reps=12)
+    # former witnesses of C14-glob (a glob imported nothing) and C14-glob-order (its effect depended on the HashSet order),
+    # repaired in /repo (mod.rs:472): they must PASS, and give one output in every run
+    mk('glob', {'a/src/lib.rs': A, 'my-crate/src/lib.rs': 'use a::*;\n#[typeshare]\npub struct C1 { pub f: A1 }\n'}, reps=6, mix=True)
+    mk('glob+explicit', {'a/src/lib.rs': A, 'b/src/lib.rs': 'use a::*;\nuse a::A1;\n#[typeshare]\npub struct B1 { pub f: A1, pub g: A3 }\n'}, reps=12, mix=True)
+    mk('glob+explicit-two-files', {'a/src/lib.rs': A, 'b/src/lib.rs': 'use a::*;\n#[typeshare]\npub struct B1 { pub g: A3 }\n',
+                                   'b/src/m.rs': 'use a::A1;\n#[typeshare]\npub struct B2 { pub f: A1 }\n'}, reps=12, mix=True)
+    mk('glob-renamed-target', {'a/src/lib.rs': A, 'b/src/lib.rs': 'use a::*;\n#[typeshare]\npub struct B1 { pub f: A2 }\n'}, reps=4, mix=True)
+    mk('glob-nested', {'a/src/lib.rs': A, 'c/src/lib.rs': '#[typeshare]\npub enum C1 { X, Y }\n',
+                       'b/src/lib.rs': 'use a::m::n::*;\nuse c::{x::*, y::Nope};\n#[typeshare]\npub struct B1 { pub f: A1, pub g: Vec<A2>, pub h: C1 }\n'}, reps=4, mix=True)
+    mk('glob-of-ignored-and-unknown-crates', {'time/src/lib.rs': '#[typeshare]\npub struct Clock { pub x: u8 }\n', 'a/src/lib.rs': A,
+                                              'b/src/lib.rs': 'use time::*;\nuse zz::*;\nuse crate::*;\nuse super::*;\nuse std::collections::*;\n#[typeshare]\npub struct B1 { pub x: Clock, pub y: A1 }\n'}, reps=4, mix=True)
+    mk('glob-of-two-crates-same-name', {'a/src/lib.rs': '#[typeshare]\npub struct S { pub x: u8 }\n', 'c/src/lib.rs': '#[typeshare]\npub struct S { pub z: u8 }\n#[typeshare]\npub struct C1 { pub z: u8 }\n',
+                                        'b/src/x.rs': 'use a::*;\nuse c::*;\n#[typeshare]\npub struct B1 { pub f: S, pub g: C1 }\n'}, reps=6, mix=True)
     mk('same-name-unknown-crate', {'a/src/lib.rs': '#[typeshare]\npub struct S { pub x: u8 }\n', 'c/src/lib.rs': '#[typeshare]\npub struct S { pub z: u8 }\n',
                                    'b/src/x.rs': 'use zz::S;\n#[typeshare]\npub struct B1 { pub f: S }\n'}, order=True, reps=12)
     mk('same-name-named-crate', {'a/src/lib.rs': '#[typeshare]\npub struct S { pub x: u8 }\n', 'c/src/lib.rs': '#[typeshare]\npub struct S { pub z: u8 }\n',
@@ -360,8 +412,28 @@ def corpus():
                                             '#[typeshare]\npub type L1 = Option<C1>;\n#[typeshare]\npub struct N1(C2);\n'})
     mk('nested-tree-wrong-base', {'a/src/lib.rs': A, 'x/src/lib.rs': '#[typeshare]\npub struct X1 { pub x: u8 }\n',
                                   'b/src/lib.rs': 'use a::x::{y::A1, z::{A3}};\nuse x::a::X1;\n#[typeshare]\npub struct B1 { pub f: A1, pub g: A3, pub h: X1 }\n'})
+    # former witness of C14-glob-const (a glob listed consts under names TypeScript does not export), repaired in /repo
+    # (parser.rs push: a const is not entered into type_names): must PASS in every run
     mk('glob-const', {'k/src/lib.rs': '#[typeshare]\npub struct K1 { pub x: u8 }\n#[typeshare]\npub const MyConst: u32 = 1;\n',
-                      'my-crate/src/lib.rs': 'use k::*;\nuse k::K1;\n#[typeshare]\npub struct B1 { pub f: K1 }\n'}, order=True, reps=12)
+                      'my-crate/src/lib.rs': 'use k::*;\nuse k::K1;\n#[typeshare]\npub struct B1 { pub f: K1 }\n'}, reps=12, mix=True)
+    mk('glob-const-alone', {'k/src/lib.rs': '#[typeshare]\npub struct K1 { pub x: u8 }\n#[typeshare]\npub const MyConst: u32 = 1;\n#[typeshare]\npub const OTHER_ONE: u8 = 2;\n',
+                            'my-crate/src/lib.rs': 'use k::*;\n#[typeshare]\npub struct B1 { pub f: K1 }\n'}, reps=4, mix=True)
+    # a crate with nothing but consts has an empty type table: the glob creates an entry with no name (`import {  } from "./k0";`)
+    mk('glob-crate-of-consts-only', {'k0/src/lib.rs': '#[typeshare]\npub const MyConst: u32 = 1;\n', 'a/src/lib.rs': A,
+                                     'b/src/lib.rs': 'use k0::*;\nuse a::A1;\n#[typeshare]\npub struct B1 { pub f: A1 }\n'}, reps=4, mix=True)
+    # consts are not type names (parser.rs push): a const of the importing file named like the imported type does not make the
+    # reference "local", and a const of a third crate is no candidate of the import fallback (one output in every run)
+    mk('local-const-named-like-import', {'a/src/lib.rs': A, 'b/src/lib.rs': 'use a::A1;\n#[typeshare]\npub const A1: u32 = 1;\n#[typeshare]\npub struct B1 { pub f: A1 }\n'})
+    mk('fallback-ignores-consts', {'a/src/lib.rs': A, 'e/src/lib.rs': '#[typeshare]\npub const A1: u32 = 1;\n#[typeshare]\npub struct E1 { pub x: u8 }\n',
+                                   'b/src/lib.rs': 'use zz::A1;\n#[typeshare]\npub struct B1 { pub f: A1 }\n'}, reps=12, mix=True)
+    # a cross-crate type named ONLY by a qualified path inside the generic arguments of another qualified path (seeded C14_c)
+    ENV = '#[typeshare]\npub struct Envelope<T> { pub inner: T }\n#[typeshare]\npub struct Page<T> { pub items: Vec<T> }\n'
+    mk('nested-qualified-paths', {'envelope/src/lib.rs': ENV, 'a/src/lib.rs': A,
+                                  'b/src/lib.rs': '#[typeshare]\npub struct Local<T> { pub v: T }\n#[typeshare]\npub struct B1 { pub f: envelope::Envelope<a::A1>, pub g: Option<envelope::Page<a::A3>>, pub h: crate::Local<a::m::A1> }\n'
+                                                  '#[typeshare]\n#[serde(tag = "t", content = "c")]\npub enum E1 { V0(envelope::Envelope<Vec<a::A3>>), V1 { f: self::Local<envelope::Page<a::A1>> } }\n'
+                                                  '#[typeshare]\npub type L1 = envelope::Page<a::A1>;\n'})
+    mk('nested-qualified-only-inner', {'envelope/src/lib.rs': ENV, 'a/src/lib.rs': A,
+                                       'b/src/lib.rs': '#[typeshare]\npub struct B1 { pub f: envelope::Envelope<a::A3> }\n'})
     mk('generic-param-not-a-reference', {'a/src/lib.rs': '#[typeshare]\npub struct U { pub x: u8 }\n', 'b/src/lib.rs': 'use a::U;\n#[typeshare]\npub struct B1<U> { pub f: U }\n'})
     return out
 
@@ -432,11 +504,12 @@ def decode_model(m):
     spec = {'paths': [([vf.unS(c) for c in p], sx_opt(o, vf.unS)) for p, o in sp['paths']],
             'crates': [{'crate': vf.unS(c), 'file': vf.unS(f), 'conventional': conv == 'true', 'defs': [vf.unS(x) for x in defs]} for c, f, conv, defs in sp['crates']],
             'judge': {}}
-    for c, good, unsound, refs, consts in sp['judge']:
+    for c, good, unsound, refs, consts in sp['judge']:     # refs: (name from generated imported elsewhere dom known unique)
         spec['judge'][vf.unS(c)] = {'good': good == 'true', 'unsound': [(vf.unS(a), vf.unS(b)) for a, b in unsound],
                                     'const_imports': [(vf.unS(a), vf.unS(b)) for a, b in consts],
                                     'refs': [{'name': vf.unS(n), 'from': vf.unS(fr), 'generated': vf.unS(g), 'imported': imp == 'true',
-                                              'elsewhere': [vf.unS(x) for x in els], 'dom': dom == 'true', 'known': sx_opt(kn)} for n, fr, g, imp, els, dom, kn in refs]}
+                                              'elsewhere': [vf.unS(x) for x in els], 'dom': dom == 'true', 'known': sx_opt(kn), 'unique': uq == 'true'}
+                                             for n, fr, g, imp, els, dom, kn, uq in refs]}
     return {'status': status, 'files': files, 'spec': spec}
 
 
@@ -444,13 +517,14 @@ def run(chk):
     chk.rule = ('seeded workspaces of 1-5 crates (directory names with - _ digits, optionally under libs/ or crates/shared/), 1-3 files per crate at depth 0-3 '
                 'under src, 1-3 generated items per file (lib/progs.py, 20% serde-renamed types) plus one item per file - a struct, an algebraic enum with tuple and '
                 'struct variants, a type alias or a newtype - whose member types refer to types of other crates / other files of the same crate; each reference is introduced by one of: use d::..::N, grouped use d::{..}, nested use d::m::{z::{N}, x::M}, '
-                'glob, qualified path d::..::N, crate:: / super:: / self:: (use or path), unknown crate, std/serde_json (ignored crates); 25% with a type mapping on a '
+                'glob (plain, below modules, inside a group; freely mixed with explicit imports of the same crate), qualified path d::..::N, crate:: / super:: / self:: (use or path), unknown crate, std/serde_json (ignored crates); 25% with a type mapping on a '
                 'referenced type, 25% (>=3 crates) with a same-named type in two crates; files outside src, nested src/x/src, src/src; plus a hand-written corpus with '
-                'one workspace per finding class and domain boundary. Every workspace is run through the real binary in all six languages with -d and with -o. '
+                'one workspace per finding class (open or repaired) and domain boundary. Every workspace is run through the real binary in all six languages with -d and with -o; '
+                'workspaces with the same-name fallback or with a glob next to an explicit import of the same crate 4-12 times (TypeScript, Kotlin): only the former may vary. '
                 'non-trivial = distinct (workspace, language) with at least one cross-crate reference or a corpus case')
     chk.assumptions = ['syn is not modelled: the model receives the AST (items, use trees, every syn::Path) produced by harness/libdrive/src/ast.rs from the same text',
                        'the directory walk (ignore rules, symlinks, *.rs filter) is not modelled: the model is given the list of .rs files the generator wrote',
-                       'hash iteration orders are arguments of the model; the binary is compared with the set of model outputs over the evaluated orders and run repeatedly',
+                       'hash iteration orders are arguments of the model; the binary is compared with the set of model outputs over the evaluated orders and run repeatedly; outside the planted same-name fallback every order and every run must give the same bytes',
                        'the spec predicates take the annotated items of each file from the single-file front end (Model.Parse.parse_file, tied to the code by C03/C08)',
                        'arrival order at the collector = path order (names are distinct inside a crate, where C06 proves the order irrelevant)']
     chk.prepare(need_cli=True)
@@ -482,7 +556,7 @@ def run(chk):
             body = ''.join(f'"{k}" = "{v}"\n' for k, v in sorted(ws.mappings.items()))
             ws.cfgfile.write_text(f'[typescript.type_mappings]\n{body}\n[kotlin.type_mappings]\n{body}')
         reps = getattr(ws, 'reps', 1)
-        if ws.maybe_order_dependent and reps == 1:
+        if (ws.maybe_order_dependent or ws.glob_mix) and reps == 1:
             reps = 4
         for lang, ext, extra, cfg in LANGS:
             cf = ws.cfgfile if lang in IMPORT_LANGS else None
@@ -516,7 +590,7 @@ def run(chk):
                 obs = {}          # crate (from the generated file name) -> observed pairs; file name -> crate via the stem
                 for fname, text in first['files'].items():
                     obs[fname.rsplit('.', 1)[0]] = imports_of(lang, text)
-            orders = ORDERS if (ws.maybe_order_dependent and lang in IMPORT_LANGS) else ORDERS[:2]
+            orders = ORDERS if ((ws.maybe_order_dependent or ws.glob_mix) and lang in IMPORT_LANGS) else ORDERS[:2]
             for k, order in enumerate(orders):
                 mreq.append(model_request(lang, c, order, entries, obs if k == 0 else None))
                 mmeta.append((w, lang, order))
@@ -596,7 +670,9 @@ def run(chk):
                 if lang in IMPORT_LANGS:
                     for c, j in spec['judge'].items():
                         if j['unsound']:
-                            bad.append((f'{c}: imports {j["unsound"]} name a type the module does not define (or the file itself)', None))
+                            consts = [p for p in j['unsound'] if p in j['const_imports']]
+                            bad.append((f'{c}: imports {j["unsound"]} name a type the module does not define (or the file itself)'
+                                        + (f'; {consts} are CONSTS of their module - a const is not a type (regression of the fixed finding C14-glob-const?)' if consts else ''), None))
                         here_defs = None
                         for r in j['refs']:
                             chk.count('references_judged')
@@ -606,10 +682,10 @@ def run(chk):
                                 if r['known']:
                                     bad.append((f'{c}: {r["generated"]} (from {r["from"]}) is used but not imported', r['known']))
                                 elif r['dom']:
-                                    bad.append((f'{c}: {r["generated"]} (from {r["from"]}) is used, introduced by a plain use/path, and not imported', None))
+                                    bad.append((f'{c}: {r["generated"]} (from {r["from"]}) is used, introduced by a plain use/path or covered by a glob import of {r["from"]}, and not imported', None))
                                 else:
                                     chk.count('unimported_outside_domain')
-                            elif r['elsewhere'] and r['dom']:
+                            elif r['elsewhere'] and r['dom'] and r['unique']:
                                 bad.append((f'{c}: {r["generated"]} is also imported from {r["elsewhere"]}', None))
                     # sound against what the implementation itself defined in the module's file (TypeScript names are the generated names)
                     if lang == 'typescript':
@@ -617,9 +693,10 @@ def run(chk):
                             for mod, nm in imports_of(lang, text):
                                 target = impl['files'].get(mod + '.ts')
                                 if target is None or nm not in {x for _, x in definitions(lang, target)}:
-                                    # a const of the module, imported under its generated name (written in SCREAMING_SNAKE_CASE)?
-                                    known_const = (mod, nm) in spec['judge'].get(fname.rsplit('.', 1)[0], {}).get('const_imports', [])
-                                    bad.append((f'{fname} imports {nm} from ./{mod} which does not define it', 'C14-glob-const' if known_const else None))
+                                    # a const of the module, imported under its generated name (written in SCREAMING_SNAKE_CASE): what the
+                                    # fixed finding C14-glob-const was about - a plain violation now
+                                    is_const = (mod, nm) in spec['judge'].get(fname.rsplit('.', 1)[0], {}).get('const_imports', [])
+                                    bad.append((f'{fname} imports {nm} from ./{mod} which does not define it' + (' (a const of that module, written under another name)' if is_const else ''), None))
             # --- equality with the model (per file: some evaluated order must give exactly these bytes)
             equal = True
             bytes_equal = True
@@ -646,19 +723,24 @@ def run(chk):
             if model_varies or varying:
                 chk.count('order_dependent_cases')
                 if not ws.maybe_order_dependent:
-                    chk.violation(tag, dict(payload, orders=[o for o, _ in variants]), 'the output depends on a hash iteration order although no order-dependent construct was planted')
+                    chk.violation(tag, dict(payload, orders=[o for o, _ in variants], runs_differ=varying, model_orders_differ=model_varies),
+                                  'the output depends on a hash iteration order although no order-dependent construct was planted'
+                                  + (' (this workspace is run repeatedly because it must give ONE output since the /repo fixes of C14-glob-order / C14-glob-const: a glob import creates its own entry, a const is no candidate of a glob or of the fallback)' if ws.glob_mix else ''))
                     continue
-                glob_dep = any(texts[i] != texts[j] for i, j in ((3, 4), (5, 6)) if len(texts) > 6)
+                # the only recorded dependence: the fallback's choice among several crates, through the order of CrateTypes
+                # (orders 0 and 2 differ in it alone); no order of an import SET may reach the output (orders 0/3/4 and 2/5/6)
+                set_dep = any(texts[i] != texts[j] for i, j in ((0, 3), (0, 4), (2, 5), (2, 6)) if len(texts) > 6)
                 fallback_dep = len(texts) > 2 and texts[0] != texts[2]
-                if model_varies and not (glob_dep or fallback_dep):
-                    chk.violation(tag, dict(payload, orders=[o for o, _ in variants]), 'the model output depends on an iteration order in a way that is neither the glob nor the fallback dependence')
+                if model_varies and (set_dep or not fallback_dep):
+                    chk.violation(tag, dict(payload, orders=[o for o, _ in variants]), 'the model output depends on an iteration order in a way that is not the fallback dependence (C14_import_list_order_irrelevant)')
                     continue
-                for fid, dep in (('C14-glob-order', glob_dep), ('C14-same-name', fallback_dep)):
-                    if dep:
-                        if varying:
-                            chk.count('variation_observed_' + fid)
-                        if equal and not chk.known(fid, payload):
-                            chk.violation(tag, payload, f'order-dependent import resolution ({fid}) is not a recorded open finding')
+                if fallback_dep:
+                    if varying:
+                        chk.count('variation_observed_C14-same-name')
+                    if equal and not chk.known('C14-same-name', payload):
+                        chk.violation(tag, payload, 'order-dependent import resolution (C14-same-name) is not a recorded open finding')
+            elif ws.glob_mix and lang in IMPORT_LANGS:
+                chk.count('glob_mix_cases_stable', len(multi_runs))
             if lang in IMPORT_LANGS and impl['rc'] == 0:
                 chk.count('import_lists_compared')
                 if equal and len(variants) == 2:
